@@ -178,12 +178,22 @@ def escape_edits(op):
                 if t not in seen:
                     seen.add(t)
                     yield t
-    for q in QUOTES:
+    # a lone quote between back-ticks is the quote itself; the characters NEXT to the quote characters in the code charts
+    # (‚ ‛ „ ‗ 〈 〉 【 …) are ordinary characters there, like anywhere else in a literal
+    near = [0x2017, 0x201A, 0x201B, 0x201E, 0x201F, 0x3008, 0x3009, 0x3010, 0x3011, 0x2039, 0x00AB]
+    for q in QUOTES + near:
         for tail in ([BT], [], [0x78], [BT, BT], [q, BT]):
             t = tuple([op, BT, q] + tail + [cl])
             if t not in seen:
                 seen.add(t)
                 yield t
+        if q in near:
+            for t in ([op, 0x78, BT, q, BT, 0x79, cl], [op, BT, 0x61, 0x62, q, 0x63, 0x64, BT, 0x4C, 0x46, BT, cl],
+                      [op, BT, 0x43, q, 0x52, BT, 0x54, 0x41, 0x42, BT, cl], [op, q, cl], [op, BT, 0x53, 0x50, BT, q, cl]):
+                t = tuple(t)
+                if t not in seen:
+                    seen.add(t)
+                    yield t
 
 
 def run(ctx):
@@ -301,6 +311,30 @@ def run(ctx):
     soup = list(dict.fromkeys(lexgen.gen_sources(rng, ctx.n(6000, 120000), 'strings', 12 if quick else 40)))
     lexgen.lex_compare(ctx, 'lex-strings', soup)
     ctx.streams.append({'stream': 'lex-strings', 'cases': len(soup)})
+
+    # ---- an unterminated literal is an error wherever it stands: first token of the text, after a statement, and as the first
+    # token after a comment of any of the four kinds (the parser skips comments; what follows them is lexed the same way)
+    comments = ['注：说明', '注：“两行\n注释”', '// c', '/* a\n b */', '注12：说', '']
+    heads = ['', '令甲设为1\n', '（显示：1）\n', '令甲设为1 ']
+    opens = ['“未收尾', '「未收尾', '“甲`“乙”', '“', '“a”“b', '『未』“x']
+    cases, wants = [], []
+    for h in heads:
+        for c in comments:
+            for o in opens:
+                sep = '\n' if c else ''
+                text = h + c + sep + o
+                if h.endswith(' ') and not c:
+                    continue
+                cases.append('run ' + cps([ord(ch) for ch in text]))
+    got = lexgen.run_go_retry(ctx, cases)
+    for c, g in zip(cases, got):
+        ctx.evaluations += 1
+        if not g.startswith('err syn '):
+            ctx.violation('unterminated-after-comment', c, g, 'err syn 27 (a literal that is never closed is a syntax error; nothing of the text runs)')
+        elif g.startswith('err syn 27'):
+            ctx.nontriv(c)
+        ctx.count('unterminated:' + ' '.join(g.split(' ')[:3]))
+    ctx.streams.append({'stream': 'unterminated-after-comment', 'cases': len(cases)})
 
 
 def replay(ctx, data):
